@@ -1,1 +1,136 @@
-fn main(){}
+mod c05;
+mod c14;
+mod c15;
+mod crash;
+mod disk;
+mod exec;
+mod gen;
+mod harness;
+mod jsfmt;
+mod merkle;
+mod model;
+mod net;
+mod props;
+mod repl;
+mod rng;
+mod tamper;
+mod world;
+
+use harness::RunOpts;
+use std::time::Instant;
+
+fn usage() -> ! {
+    eprintln!("usage: hcsim check <ID> [--tier quick|thorough] [--seed N] | hcsim replay <file> [--quiet] | hcsim selfcheck determinism");
+    std::process::exit(2);
+}
+
+fn on_timeout(prop: &str, label: &str, replay_json: &str) {
+    // a call never returned within the wall limit: persist the pre-written trace and stop
+    let dir = harness::verif_dir().join("replays");
+    let _ = std::fs::create_dir_all(&dir);
+    let safe: String = label.chars().map(|c| if c.is_ascii_alphanumeric() { c } else { '_' }).collect();
+    let p = dir.join(format!("{prop}-hang-{safe}.json"));
+    let case: serde_json::Value = serde_json::from_str(replay_json).unwrap_or(serde_json::Value::Null);
+    let rf = serde_json::json!({
+        "property": prop, "seed": 0, "tier": "hang", "clause": "HANG.wall",
+        "message": format!("a call did not return within the wall-clock limit ({label})"),
+        "step": -1, "log_hash": 0, "minimised": false, "original_steps": 0, "case": case,
+    });
+    let _ = std::fs::write(&p, serde_json::to_string_pretty(&rf).unwrap());
+    if std::env::var("HCSIM_REPLAY_MODE").is_ok() {
+        println!("REPRODUCED clause=HANG.wall (call did not return)");
+        std::process::exit(1);
+    }
+    println!("violation detail: clause=HANG.wall {label}: a call into the crate did not return within the wall-clock limit");
+    println!("VIOLATION property={prop} replay={}", p.display());
+    std::process::exit(1);
+}
+
+fn main() {
+    let args: Vec<String> = std::env::args().collect();
+    if args.len() < 2 {
+        usage();
+    }
+    exec::install_panic_hook();
+    let workers: usize = std::env::var("HCSIM_WORKERS")
+        .ok()
+        .and_then(|s| s.parse().ok())
+        .unwrap_or_else(|| std::thread::available_parallelism().map(|n| n.get()).unwrap_or(4).min(16));
+    match args[1].as_str() {
+        "check" => {
+            if args.len() < 3 {
+                usage();
+            }
+            let prop = args[2].to_uppercase();
+            let mut tier = std::env::var("VERIF_TIER").unwrap_or_else(|_| "quick".into());
+            let mut seed: u64 =
+                std::env::var("VERIF_SEED").ok().and_then(|s| s.parse().ok()).unwrap_or(1);
+            let mut i = 3;
+            while i < args.len() {
+                match args[i].as_str() {
+                    "--tier" => {
+                        tier = args.get(i + 1).cloned().unwrap_or_else(|| usage());
+                        i += 1;
+                    }
+                    "--seed" => {
+                        seed = args.get(i + 1).and_then(|s| s.parse().ok()).unwrap_or_else(|| usage());
+                        i += 1;
+                    }
+                    _ => usage(),
+                }
+                i += 1;
+            }
+            if tier != "quick" && tier != "thorough" {
+                usage();
+            }
+            let hang_limit = std::env::var("HCSIM_HANG_S").ok().and_then(|s| s.parse().ok()).unwrap_or(120);
+            exec::start_watchdog(workers, hang_limit, on_timeout);
+            let opts = RunOpts {
+                prop: prop.clone(),
+                tier: tier.clone(),
+                seed,
+                workers,
+                max_reports: 3,
+                wall_limit_s: std::env::var("HCSIM_WALL_S").ok().and_then(|s| s.parse().ok()).unwrap_or(0),
+            };
+            println!("hcsim check {prop} tier={tier} VERIF_SEED={seed} workers={workers}");
+            let t0 = Instant::now();
+            let code = props::check(&opts, t0);
+            std::process::exit(code);
+        }
+        "replay" => {
+            if args.len() < 3 {
+                usage();
+            }
+            let quiet = args.iter().any(|a| a == "--quiet");
+            std::env::set_var("HCSIM_REPLAY_MODE", "1");
+            let hang_limit = std::env::var("HCSIM_HANG_S").ok().and_then(|s| s.parse().ok()).unwrap_or(120);
+            exec::start_watchdog(1, hang_limit, on_timeout);
+            exec::set_worker(0);
+            let (rf, out, same) = harness::replay(&args[2]);
+            if !quiet {
+                println!("replay {}: property={} clause={} recorded_log_hash={:016x} now={:016x}", args[2], rf.property, rf.clause, rf.log_hash, out.log_hash);
+                for v in &out.viols {
+                    println!("  violation clause={} step={}: {}", v.clause, v.step, v.msg);
+                }
+            }
+            if same {
+                if !quiet {
+                    println!("REPRODUCED clause={} log_hash_equal={}", rf.clause, rf.log_hash == out.log_hash);
+                    println!("VIOLATION property={} replay={}", rf.property, args[2]);
+                }
+                std::process::exit(1);
+            } else {
+                if !quiet {
+                    println!("NOT-REPRODUCED (the recorded violation does not occur on this tree)");
+                }
+                std::process::exit(0);
+            }
+        }
+        "selfcheck" => {
+            let code = props::selfcheck(args.get(2).map(|s| s.as_str()).unwrap_or("determinism"), workers);
+            std::process::exit(code);
+        }
+        _ => usage(),
+    }
+}
